@@ -5,6 +5,186 @@ verus! {
 
 pub mod env {
     use vstd::prelude::*;
+    use super::unit::{SystemLockData, FieldSubstate, KeyValueEntrySubstate, LockStatus, SystemService};
+
+    pub type SubstateHandle = u32;
+    pub type FieldHandle = u32;
+    pub type KeyValueEntryHandle = u32;
+    pub type ActorStateHandle = u32;
+    pub type CollectionIndex = u8;
+
+    #[verifier::external_body]
+    #[derive(Clone, Copy)]
+    pub struct NodeId { x: [u8; 30] }
+    #[derive(Clone, Copy)]
+    pub struct PartitionNumber(pub u8);
+    pub enum SubstateKey { Field(u8), Map(Vec<u8>), Sorted(([u8; 2], Vec<u8>)) }
+    /// identity of a substate (spec level)
+    pub type SubstateId = (NodeId, PartitionNumber, SubstateKey);
+
+    #[verifier::external_body]
+    pub struct ScryptoValue { x: Vec<u8> }
+    impl Clone for ScryptoValue {
+        #[verifier::external_body]
+        fn clone(&self) -> (r: Self) ensures r == *self { unimplemented!() }
+    }
+    #[verifier::external_body]
+    pub struct BlueprintTypeTarget { x: Vec<u8> }
+    #[verifier::external_body]
+    pub struct KVStoreTypeTarget { x: Vec<u8> }
+    pub enum KeyOrValue { Key, Value }
+    pub enum BlueprintPayloadIdentifier { Field(u8), KeyValueEntry(u8, KeyOrValue), Other }
+
+    pub enum SystemError {
+        NotAFieldHandle, NotAFieldWriteHandle, NotAKeyValueEntryHandle, NotAKeyValueEntryWriteHandle,
+        InvalidLockFlags, NotAKeyValueStore, InvalidActorStateHandle,
+        FieldLocked(ActorStateHandle, u8), KeyValueEntryLocked, Other,
+    }
+    /// RuntimeError (radix-engine/src/errors.rs) reduced: `Environment` = every error only the kernel / other modules raise
+    pub enum RuntimeError { SystemError(SystemError), Environment }
+    pub struct DecodeError;
+    pub struct EncodeError;
+    #[verifier::external]
+    impl core::fmt::Debug for DecodeError { fn fmt(&self, f: &mut core::fmt::Formatter<'_>) -> core::fmt::Result { f.write_str("DecodeError") } }
+    #[verifier::external]
+    impl core::fmt::Debug for EncodeError { fn fmt(&self, f: &mut core::fmt::Formatter<'_>) -> core::fmt::Result { f.write_str("EncodeError") } }
+
+    // ---- SBOR, uninterpreted: `dec::<T>(bytes)` is what decoding `bytes` as a T yields ----------------
+    pub uninterp spec fn dec<T>(b: Seq<u8>) -> Option<T>;
+    pub trait ScryptoEncode {}
+    pub trait ScryptoDecode {}
+    impl ScryptoEncode for ScryptoValue {}
+    impl ScryptoDecode for ScryptoValue {}
+    impl ScryptoEncode for () {}
+    impl<T: ScryptoEncode> ScryptoEncode for Option<T> {}
+    impl<T: ScryptoEncode> ScryptoEncode for FieldSubstate<T> {}
+    impl<T: ScryptoDecode> ScryptoDecode for FieldSubstate<T> {}
+    impl<T: ScryptoEncode> ScryptoEncode for KeyValueEntrySubstate<T> {}
+    impl<T: ScryptoDecode> ScryptoDecode for KeyValueEntrySubstate<T> {}
+
+    /// ASSUMED: decoding is a function of the bytes; encoding then decoding at the same type is the identity;
+    /// encoding does not fail on the values passed here (the real code unwraps).
+    #[verifier::external_body]
+    pub fn scrypto_decode<T: ScryptoDecode>(buf: &[u8]) -> (r: Result<T, DecodeError>)
+        ensures match dec::<T>(buf@) { Some(t) => r == Ok::<T, DecodeError>(t), None => r is Err }
+    { unimplemented!() }
+    #[verifier::external_body]
+    pub fn scrypto_encode<T: ScryptoEncode>(value: &T) -> (r: Result<Vec<u8>, EncodeError>)
+        ensures r matches Ok(b) && dec::<T>(b@) == Some(*value)
+    { unimplemented!() }
+
+    #[verifier::external_body]
+    pub struct IndexedScryptoValue { x: Vec<u8> }
+    impl IndexedScryptoValue {
+        pub uninterp spec fn bytes(self) -> Seq<u8>;
+        #[verifier::external_body]
+        pub fn from_typed<T: ScryptoEncode>(value: &T) -> (r: Self)
+            ensures dec::<T>(r.bytes()) == Some(*value)
+        { unimplemented!() }
+        #[verifier::external_body]
+        pub fn from_slice(slice: &[u8]) -> (r: Result<Self, DecodeError>)
+            ensures r matches Ok(v) ==> v.bytes() == slice@,
+                    dec::<ScryptoValue>(slice@) is Some ==> r is Ok
+        { unimplemented!() }
+        #[verifier::external_body]
+        pub fn as_typed<T: ScryptoDecode>(&self) -> (r: Result<T, DecodeError>)
+            ensures match dec::<T>(self.bytes()) { Some(t) => r == Ok::<T, DecodeError>(t), None => r is Err }
+        { unimplemented!() }
+        #[verifier::external_body]
+        pub fn as_slice(&self) -> (r: &[u8]) ensures r@ == self.bytes() { unimplemented!() }
+        #[verifier::external_body]
+        pub fn as_scrypto_value(&self) -> (r: &ScryptoValue)
+            ensures dec::<ScryptoValue>(self.bytes()) == Some(*r)
+        { unimplemented!() }
+    }
+
+    // ---- ghost kernel state ---------------------------------------------------------------------------
+    pub ghost struct HandleInfo { pub id: SubstateId, pub data: SystemLockData }
+    pub ghost struct KState {
+        /// current value of every substate, as `kernel_read_substate` would return it
+        pub heap: Map<SubstateId, IndexedScryptoValue>,
+        /// open substate handles: which substate, and the system's lock data
+        pub handles: Map<SubstateHandle, HandleInfo>,
+    }
+    pub enum SubstateKind { Field, KeyValue, Other }
+    /// schema-level type of the partition a substate lives in (object field / key-value entry / anything else)
+    pub uninterp spec fn kind(id: SubstateId) -> SubstateKind;
+
+    pub open spec fn field_of(v: IndexedScryptoValue) -> Option<FieldSubstate<ScryptoValue>> { dec(v.bytes()) }
+    pub open spec fn kv_of(v: IndexedScryptoValue) -> Option<KeyValueEntrySubstate<ScryptoValue>> { dec(v.bytes()) }
+    /// C51 "has been locked"
+    pub open spec fn locked(id: SubstateId, v: IndexedScryptoValue) -> bool {
+        match kind(id) {
+            SubstateKind::Field => field_of(v) matches Some(f) && f.locked(),
+            SubstateKind::KeyValue => kv_of(v) matches Some(e) && e.locked(),
+            SubstateKind::Other => false,
+        }
+    }
+    /// same typed content (payload / value AND lock status)
+    pub open spec fn same_content(id: SubstateId, a: IndexedScryptoValue, b: IndexedScryptoValue) -> bool {
+        match kind(id) {
+            SubstateKind::Field => field_of(a) == field_of(b),
+            SubstateKind::KeyValue => kv_of(a) == kv_of(b),
+            SubstateKind::Other => true,
+        }
+    }
+    /// C51 AS STATED, for one write: a locked substate can be neither changed nor unlocked
+    pub open spec fn write_allowed(id: SubstateId, old_v: IndexedScryptoValue, new_v: IndexedScryptoValue) -> bool {
+        locked(id, old_v) ==> same_content(id, old_v, new_v)
+    }
+
+    /// The kernel as seen by the system layer (radix-engine/src/kernel/kernel_api.rs :: KernelSubstateApi<SystemLockData>).
+    /// Any call may fail for its own reasons (costing, limits, substate locks, bad handle); `Err` changes nothing.
+    pub trait SystemBasedKernelApi: Sized {
+        spec fn st(&self) -> KState;
+
+        fn kernel_get_lock_data(&mut self, lock_handle: SubstateHandle) -> (r: Result<SystemLockData, RuntimeError>)
+            ensures final(self).st() == old(self).st(),
+                    r matches Ok(d) ==> old(self).st().handles.contains_key(lock_handle) && d == old(self).st().handles[lock_handle].data,
+                    r matches Err(e) ==> e is Environment;
+
+        fn kernel_read_substate(&mut self, lock_handle: SubstateHandle) -> (r: Result<&IndexedScryptoValue, RuntimeError>)
+            ensures final(self).st() == old(self).st(),
+                    r matches Ok(v) ==> old(self).st().handles.contains_key(lock_handle)
+                        && old(self).st().heap.contains_key(old(self).st().handles[lock_handle].id)
+                        && *v == old(self).st().heap[old(self).st().handles[lock_handle].id],
+                    r matches Err(e) ==> e is Environment;
+
+        /// THE SENSITIVE CALLEE: its precondition is property C51 itself.
+        fn kernel_write_substate(&mut self, lock_handle: SubstateHandle, value: IndexedScryptoValue) -> (r: Result<(), RuntimeError>)
+            requires
+                old(self).st().handles.contains_key(lock_handle) && old(self).st().heap.contains_key(old(self).st().handles[lock_handle].id)
+                    ==> write_allowed(old(self).st().handles[lock_handle].id, old(self).st().heap[old(self).st().handles[lock_handle].id], value),
+            ensures
+                final(self).st().handles == old(self).st().handles,
+                r is Ok ==> old(self).st().handles.contains_key(lock_handle)
+                    && old(self).st().heap.contains_key(old(self).st().handles[lock_handle].id)
+                    && final(self).st().heap == old(self).st().heap.insert(old(self).st().handles[lock_handle].id, value),
+                r matches Err(e) ==> e is Environment && final(self).st().heap == old(self).st().heap;
+
+        fn kernel_close_substate(&mut self, lock_handle: SubstateHandle) -> (r: Result<(), RuntimeError>)
+            ensures final(self).st().heap == old(self).st().heap,
+                    r is Ok ==> final(self).st().handles == old(self).st().handles.remove(lock_handle),
+                    r matches Err(e) ==> e is Environment && final(self).st().handles == old(self).st().handles;
+    }
+
+    // ---- methods of SystemService that are NOT under contract (type checker) -------------------------
+    impl<'a, Y: SystemBasedKernelApi> SystemService<'a, Y> {
+        /// system_type_checker.rs: ASSUMED to leave the ghost state alone (it only reads schemas) and, on Ok,
+        /// to guarantee that the payload decodes as a ScryptoValue ("Should be valid due to payload check").
+        #[verifier::external_body]
+        pub fn validate_blueprint_payload(&mut self, target: &BlueprintTypeTarget, payload_identifier: BlueprintPayloadIdentifier, payload: &[u8]) -> (r: Result<(), RuntimeError>)
+            ensures final(self).api.st() == old(self).api.st(),
+                    *final(final(self).api) == *final(old(self).api),
+                    r is Ok ==> dec::<ScryptoValue>(payload@) is Some,
+        { unimplemented!() }
+        #[verifier::external_body]
+        pub fn validate_kv_store_payload(&mut self, target: &KVStoreTypeTarget, payload_identifier: KeyOrValue, payload: &[u8]) -> (r: Result<(), RuntimeError>)
+            ensures final(self).api.st() == old(self).api.st(),
+                    *final(final(self).api) == *final(old(self).api),
+                    r is Ok ==> dec::<ScryptoValue>(payload@) is Some,
+        { unimplemented!() }
+    }
 }
 
 pub mod unit {
@@ -107,6 +287,75 @@ pub mod unit {
         /*@fn radix-engine/src/system/system_substates.rs :: impl<V> KeyValueEntrySubstate<V> :: fn lock_status
         @sig
             ensures ret == self.st()
+        @*/
+    }
+
+    // ==========================================================================================
+    // (b) the system layer's writers (radix-engine/src/system/system.rs)
+    // ==========================================================================================
+    /*@item radix-engine/src/system/system_callback.rs :: enum SystemLockData
+    @derive
+    @*/
+    /*@item radix-engine/src/system/system_callback.rs :: enum KeyValueEntryLockData
+    @derive
+    @*/
+    /*@item radix-engine/src/system/system_callback.rs :: enum FieldLockData
+    @derive
+    @*/
+    impl SystemLockData {
+        /*@fn radix-engine/src/system/system_callback.rs :: impl SystemLockData :: fn is_kv_entry
+        @sig
+            ensures ret == (*self is KeyValueEntry)
+        @*/
+        /*@fn radix-engine/src/system/system_callback.rs :: impl SystemLockData :: fn is_kv_entry_with_write
+        @sig
+            ensures ret == kv_write_data(*self)
+        @*/
+    }
+    pub open spec fn kv_write_data(d: SystemLockData) -> bool {
+        d matches SystemLockData::KeyValueEntry(k) && !(k is Read)
+    }
+    pub open spec fn field_write_data(d: SystemLockData) -> bool {
+        d matches SystemLockData::Field(f) && f is Write
+    }
+
+    /*@item radix-engine/src/system/system.rs :: struct SystemService
+    @*/
+
+    /// typing invariant of the ghost kernel state
+    pub open spec fn inv(s: KState) -> bool {
+        &&& forall|h: SubstateHandle| #[trigger] s.handles.contains_key(h) ==> s.heap.contains_key(s.handles[h].id)
+                && (s.handles[h].data is Field ==> kind(s.handles[h].id) is Field)
+                && (s.handles[h].data is KeyValueEntry ==> kind(s.handles[h].id) is KeyValue)
+        &&& forall|id: SubstateId| #[trigger] s.heap.contains_key(id) ==>
+                (kind(id) is Field ==> field_of(s.heap[id]) is Some) && (kind(id) is KeyValue ==> kv_of(s.heap[id]) is Some)
+    }
+    /// every open handle that carries WRITE lock data points at a substate that is not locked
+    pub open spec fn write_handles_unlocked(s: KState) -> bool {
+        forall|h: SubstateHandle| #[trigger] s.handles.contains_key(h) && (field_write_data(s.handles[h].data) || kv_write_data(s.handles[h].data))
+            ==> !locked(s.handles[h].id, s.heap[s.handles[h].id])
+    }
+    /// C51 over one step of the heap: whatever was locked is still there, locked, with the same content
+    pub open spec fn heap_monotone(h0: Map<SubstateId, IndexedScryptoValue>, h1: Map<SubstateId, IndexedScryptoValue>) -> bool {
+        forall|id: SubstateId| #[trigger] h0.contains_key(id) ==> h1.contains_key(id) && write_allowed(id, h0[id], h1[id])
+    }
+
+    impl<'a, Y: SystemBasedKernelApi> SystemService<'a, Y> {
+        /*@fn radix-engine/src/system/system.rs :: impl<'a, Y: SystemBasedKernelApi> SystemFieldApi<RuntimeError> for SystemService<'a, Y> :: fn field_write
+        @sig
+            requires inv(old(self).api.st()), write_handles_unlocked(old(self).api.st())
+            ensures
+                inv(final(self).api.st()), write_handles_unlocked(final(self).api.st()),
+                heap_monotone(old(self).api.st().heap, final(self).api.st().heap),
+                *final(final(self).api) == *final(old(self).api),
+        @*/
+        /*@fn radix-engine/src/system/system.rs :: impl<'a, Y: SystemBasedKernelApi> SystemFieldApi<RuntimeError> for SystemService<'a, Y> :: fn field_lock
+        @sig
+            requires inv(old(self).api.st())
+            ensures
+                inv(final(self).api.st()),
+                heap_monotone(old(self).api.st().heap, final(self).api.st().heap),
+                *final(final(self).api) == *final(old(self).api),
         @*/
     }
     impl<V> Default for KeyValueEntrySubstate<V> {
